@@ -684,3 +684,73 @@ impl<'a, K: Eq, V> FoldEntry<'a, K, V> {
     self.or_insert_with(V::default)
   }
 }
+
+impl<K: Eq, V> FoldMap<K, V> {
+  /// Same contract as `retain` of the std maps: keeps the entries for which `f` is true.
+  pub fn retain<F: FnMut(&K, &mut V) -> bool>(&mut self, mut f: F) {
+    let mut kept: [Option<(K, V)>; FOLD_CAP] = [const { None }; FOLD_CAP];
+    let mut n = 0usize;
+    let mut i = 0;
+    while i < FOLD_CAP {
+      if let Some((k, mut v)) = self.items[i].take() {
+        if f(&k, &mut v) {
+          let mut it = Some((k, v));
+          let mut j = 0;
+          while j < FOLD_CAP {
+            if j == n {
+              kept[j] = it.take();
+            }
+            j += 1;
+          }
+          n += 1;
+        }
+      }
+      i += 1;
+    }
+    self.items = kept;
+    self.len = n;
+  }
+}
+
+/// Finite set with the same constant-index discipline (for refactorings of the fold
+/// that keep auxiliary id sets).
+pub struct FoldSet<T> {
+  inner: FoldMap<T, ()>,
+}
+
+impl<T: Eq> FoldSet<T> {
+  pub fn new() -> Self {
+    FoldSet { inner: FoldMap::new() }
+  }
+
+  pub fn len(&self) -> usize {
+    self.inner.len()
+  }
+
+  pub fn is_empty(&self) -> bool {
+    self.inner.is_empty()
+  }
+
+  pub fn insert(&mut self, v: T) -> bool {
+    self.inner.insert(v, ()).is_none()
+  }
+
+  pub fn contains<Q: ?Sized + Eq>(&self, v: &Q) -> bool
+  where
+    T: Borrow<Q>,
+  {
+    let mut found = false;
+    let mut i = 0;
+    while i < FOLD_CAP {
+      if i < self.inner.len {
+        if let Some((k, _)) = &self.inner.items[i] {
+          if k.borrow() == v {
+            found = true;
+          }
+        }
+      }
+      i += 1;
+    }
+    found
+  }
+}
